@@ -184,7 +184,9 @@ def build_screen_case(rng, w):
             stream.insert(pos, ('cmdaddr', [CMD_RECT] + payload, FB))
         elif kind == 'init_huge':
             # a huge but legal geometry followed by an update would read far past the segment: words read 0
-            stream.insert(pos, ('cmd', [CMD_INIT, 0, rng.choice([1, 0x80]), 1, 0, 8, 0, 0]))
+            # (kept inside the w-bit address space: at w=16 a 32768-pixel row would run past word 2^16, where the
+            #  python adapter's address mask wraps and the native one does not - not memory at all, out of scope)
+            stream.insert(pos, ('cmd', [CMD_INIT, 0, rng.choice([1, 0x80]) if w >= 32 else 1, 1, 0, 8, 0, 0]))
         elif kind == 'noinit_update':
             stream.insert(0, ('cmdaddr', [CMD_UPDATE], FB))
         elif kind == 'noinit_rect':
